@@ -88,7 +88,7 @@ def get_headpos_by_rule(parent_label, children_label, rules,
                 return 0
             else:
                 raise ValueError("unknown head rule direction")
-        for label in hrule[1]:
+        for label in hrule[1].split():
             if hrule[0] == 'left-to-right':
                 for i, child_label in enumerate(children_label):
                     parsed_label = trees.parse_label(child_label.lower())
@@ -101,7 +101,6 @@ def get_headpos_by_rule(parent_label, children_label, rules,
                     parsed_label = trees.parse_label(child_label.lower())
                     if parsed_label.label.lower() == label:
                         return i
-                return 0
             else:
                 raise ValueError("unknown head rule direction")
     return 0
